@@ -115,14 +115,35 @@ theorem execd_decodes_to_constructed (kvs : List (String × String)) (hk : ∀ k
     ∃ t, encode Gen.S.ExecDProgramOutput (execdVal kvs) = some t ∧ decode Spec.Cnb.execdOutput t = .ok (execdVal kvs) :=
   roundtrip _ _ _ (by decide) (hasType_execd kvs hk)
 
-/-- **M1 for package.toml**, incl. libcnb's own reader. -/
-theorem package_decodes_to_constructed (p : Package) (hos : p.os = "linux" ∨ p.os = "windows") :
+/-- **M1 for package.toml** (URI references valid, as `try_from` guarantees), incl. libcnb's own reader. The value is the
+descriptor as constructed, i.e. with its URIs as `uriparse` holds them (see `package_uri_respelled_counterexample`). -/
+theorem package_decodes_to_constructed (p : Package) (hos : p.os = "linux" ∨ p.os = "windows")
+    (hb : StrV.uri.valid p.buildpack = true) (hdeps : ∀ u ∈ p.dependencies, StrV.uri.valid u = true) :
     ∃ t, encode Gen.S.PackageDescriptor p.toVal = some t ∧ decode Spec.Cnb.packageToml t = .ok p.toVal ∧
       decode Gen.S.PackageDescriptor t = .ok p.toVal := by
-  obtain ⟨t, h1, h2⟩ := roundtrip Gen.S.PackageDescriptor Spec.Cnb.packageToml _ (by decide) (hasType_package p hos)
-  obtain ⟨t', h1', h2'⟩ := roundtrip Gen.S.PackageDescriptor Gen.S.PackageDescriptor _ (by decide) (hasType_package p hos)
+  obtain ⟨t, h1, h2⟩ := roundtrip Gen.S.PackageDescriptor Spec.Cnb.packageToml _ (by decide) (hasType_package p hos hb hdeps)
+  obtain ⟨t', h1', h2'⟩ := roundtrip Gen.S.PackageDescriptor Gen.S.PackageDescriptor _ (by decide) (hasType_package p hos hb hdeps)
   rw [h1] at h1'; cases h1'
   exact ⟨t, h1, h2, h2'⟩
+
+/-- The full claim for `PackageDescriptor{BuildpackReference,Dependency}::try_from(text)`: the descriptor carries the URI
+text it was constructed from. It does **not** hold: `uriparse` re-prints the reference. -/
+def FullStatementPackageUri : Prop := ∀ (s t : String), uriRespell s = some t → t = s
+
+/-- **M2d (package URIs), partial: concrete spellings kept verbatim** — unregistered-scheme and host case, dot segments,
+percent-escapes of unreserved characters — exactly the spellings an RFC 3986 normalisation would change. -/
+theorem package_uri_verbatim_partial :
+    ["docker://Docker.IO/heroku/x:1.2.3", "DOCKER://docker.io/x", "LIBCNB:foo/bar", "https://h/releases/./x.cnb", "file:///a/b/../c",
+     "https://h/%7Eteam/node%2ejs.cnb", "https://h/%7eteam", "https://Example.TLD./a", "../a/./b/../c", "https://user:PW@Host/x"].all
+      (fun s => uriRespell s == some s) = true := by decide
+
+/-- The finding that keeps `FullStatementPackageUri` from holding (reproduced on the real code): a registered scheme is
+lower-cased, a port re-printed as a number, an authority with empty path gains `/`. -/
+theorem package_uri_respelled_counterexample :
+    uriRespell "HTTPS://h:0080" = some "https://h:80/" ∧ ¬ FullStatementPackageUri := by
+  refine ⟨by decide, fun h => ?_⟩
+  have := h "https://h:/x" "https://h/x" (by decide)
+  exact absurd this (by decide)
 
 /-! ## non-vacuity -/
 
